@@ -792,6 +792,15 @@ def model_arrays(model):
 def judge_history(ctx, g, gm, h, model, orig_labels, coords, W):
     """Judge the live map's answers against the reference model evaluated on its CURRENT table."""
     icls = hist_class(h); kcls = hist_class(h, True)
+    bad_ = []
+
+    def check(*a, **k):           # the first broken answer of a history is the mechanism; later ones are consequences
+        if bad_:
+            return False
+        r = ctx.check(*a, **k)
+        if not r:
+            bad_.append(a[0])
+        return r
     S = lambda meth: site_of(gm, meth)  # noqa: E731
     mc, mp, mg = model_arrays(model)
     tab = O.table(mc, mp, mg)
@@ -810,7 +819,7 @@ def judge_history(ctx, g, gm, h, model, orig_labels, coords, W):
                      and numpy.array_equal(gm.vrnt_chrgrp_len, lens))
     except Exception:
         st_ok = False
-    ctx.check("C11.history.state", st_ok, S(h["log"][-1].split("(")[0]) if h["log"] else S("group"),
+    check("C11.history.state", st_ok, S(h["log"][-1].split("(")[0]) if h["log"] else S("group"),
               "stored table == the edited table (sorted, with matching run metadata when grouped)", icls,
               witness=dict(WH, stored_chr=gm.vrnt_chrgrp, stored_phys=gm.vrnt_phypos, stored_gen=gm.vrnt_genpos,
                            grouped=bool(gm.is_grouped())), coords=coords)
@@ -822,7 +831,7 @@ def judge_history(ctx, g, gm, h, model, orig_labels, coords, W):
     perm = g.permutation(len(mc))
     ok, out = guarded(ctx, S("interp_genpos"), icls, coords, lambda: gm.interp_genpos(mc[perm], mp[perm]), WH)
     if ok:
-        ctx.check("C11.history.own", O.agree(out, mg[perm], gscale)[0], S("interp_genpos"),
+        check("C11.history.own", O.agree(out, mg[perm], gscale)[0], S("interp_genpos"),
                   "interpolation at own markers == stored positions", kcls, witness=dict(WH, got=out, expected=mg[perm]), coords=coords)
     # ---- queries: current chromosomes (inside / own / outside), never-present labels and every chromosome that has left
     qc, qp, _ = gen_query(g, {"tab": tab})
@@ -837,22 +846,22 @@ def judge_history(ctx, g, gm, h, model, orig_labels, coords, W):
         keep = kind != "outside"
         qc, qp, exp, kind = qc[keep], qp[keep], exp[keep], kind[keep]
     if len(qc) == 0:
-        return True
+        return not bad_
     WQ = dict(WH, query_chr=qc, query_phys=qp)
     ok, qg = guarded(ctx, S("interp_genpos"), icls, coords, lambda: gm.interp_genpos(qc, qp), WQ)
     if not ok:
-        return True
+        return False
     qg = numpy.asarray(qg, dtype=float)
     if qg.shape != qp.shape:
-        ctx.check("C11.history.absent", False, S("interp_genpos"), "one position per query", icls, witness=dict(WQ, got=qg), coords=coords)
-        return True
+        check("C11.history.absent", False, S("interp_genpos"), "one position per query", icls, witness=dict(WQ, got=qg), coords=coords)
+        return not bad_
     ab = kind == "absent"
-    ctx.check("C11.history.absent", bool(numpy.all(numpy.isnan(qg[ab]))) and bool(numpy.all(numpy.isfinite(qg[~ab]))),
+    check("C11.history.absent", bool(numpy.all(numpy.isnan(qg[ab]))) and bool(numpy.all(numpy.isfinite(qg[~ab]))),
               S("build_spline"), "position is NaN exactly on chromosomes absent from the current table", icls,
               witness=dict(WQ, got=qg, kind=kind.tolist(), chromosomes_that_left=gone), coords=coords)
     known = (kind == "own") | ((kind == "inside") & linear & congruent)
     if known.any():
-        ctx.check("C11.history.linear", O.agree(qg[known], exp[known], gscale)[0], S("build_spline"),
+        check("C11.history.linear", O.agree(qg[known], exp[known], gscale)[0], S("build_spline"),
                   "own markers / linear between the current flanking markers", kcls,
                   witness=dict(WQ, got=qg, expected=exp, kind=kind.tolist()), coords=coords)
     if linear and congruent and (~ab).any():
@@ -866,21 +875,21 @@ def judge_history(ctx, g, gm, h, model, orig_labels, coords, W):
             v = numpy.flatnonzero((dg < -t) | ((dp == 0) & (numpy.abs(dg) > t)))
             if v.size and bad is None:
                 bad = {"chromosome": lab, "phys": allp[o][int(v[0]):int(v[0]) + 2], "gen": allg[o][int(v[0]):int(v[0]) + 2]}
-        ctx.check("C11.history.order", bad is None, S("build_spline"), "order preserving along a chromosome (current markers as anchors)",
+        check("C11.history.order", bad is None, S("build_spline"), "order preserving along a chromosome (current markers as anchors)",
                   icls, witness=dict(WQ, got=qg, pair=bad), coords=coords)
     # ---- distances from physical positions == reference distances of the interpolated positions
     o = numpy.lexsort((qp, qc)); pc, pp, pg = qc[o], qp[o], qg[o]
     ok, d1 = guarded(ctx, S("gdist1p"), icls, coords, lambda: gm.gdist1p(pc, pp), WQ)
     if ok:
-        ctx.check("C11.history.dist", O.agree(d1, O.ref_seqdist(pc, pg), O.scale_of(qg))[0], S("gdist1p"),
+        check("C11.history.dist", O.agree(d1, O.ref_seqdist(pc, pg), O.scale_of(qg))[0], S("gdist1p"),
                   "sequential distances of the interpolated positions", icls, witness=dict(WQ, got=d1), coords=coords)
     ok, d2 = guarded(ctx, S("gdist2p"), icls, coords, lambda: gm.gdist2p(qc, qp), WQ)
     if ok:
         # expected from the reference positions where the property fixes them (absent -> NaN), else from the answers
         rg = numpy.where(known | ab, exp, qg)
-        ctx.check("C11.history.dist", O.agree(d2, O.ref_pairdist(qc, rg, qc, rg), O.scale_of(qg))[0], S("gdist2p"),
+        check("C11.history.dist", O.agree(d2, O.ref_pairdist(qc, rg, qc, rg), O.scale_of(qg))[0], S("gdist2p"),
                   "pairwise distances of the positions on the current table", icls, witness=dict(WQ, got=d2, positions=rg), coords=coords)
-    return True
+    return not bad_
 
 
 def case_history(ctx, c):
@@ -1032,16 +1041,18 @@ def case_history(ctx, c):
                 e2, k2 = O.ref_interp(stab, tc, tp)
                 ok, got = guarded(ctx, S("interp_genpos"), scls, coords, lambda: sib.interp_genpos(tc, tp), W)
                 if ok:
-                    ctx.check("C11.history.spline_arg", O.agree(got, e2, O.scale_of(sge))[0], S("build_spline"),
+                    sib_ok = ctx.check("C11.history.spline_arg", O.agree(got, e2, O.scale_of(sge))[0], S("build_spline"),
                               "new map answers from its own table only (own markers; NaN on chromosomes it lacks)", scls,
                               witness=dict(W, history=list(h["log"]), query_chr=tc, query_phys=tp, got=got, expected=e2), coords=coords)
+                if ok and not sib_ok:
+                    return
                 if okb:
                     ok, after = guarded(ctx, S("interp_genpos"), icls, coords, lambda: gm.interp_genpos(qc0, qp0), W)
-                    if ok:
-                        ctx.check("C11.history.spline_arg", O.agree(after, before, O.scale_of(before))[0], S("build_spline"),
+                    if ok and not ctx.check("C11.history.spline_arg", O.agree(after, before, O.scale_of(before))[0], S("build_spline"),
                                   "the map whose spline dictionary was passed on keeps its answers", scls,
                                   witness=dict(W, history=list(h["log"]), query_chr=qc0, query_phys=qp0, before=before, after=after),
-                                  coords=coords)
+                                  coords=coords):
+                        return
             if not judge_history(ctx, g, gm, h, model, orig_labels, coords, W):
                 return
         ctx.sumnote("history steps", nsteps)
